@@ -12,9 +12,19 @@ from typing import Any
 
 def enc(v: Any) -> Any:
     """Python value -> JSON-serialisable tagged form (exact types preserved)."""
-    if v is None or isinstance(v, (bool, str)):
-        return v
     t = type(v)
+    if v is None or t is bool or t is str:
+        return v
+    if isinstance(v, str):
+        # str subclasses (markupsafe.Markup) must keep their type through the codec
+        try:
+            from markupsafe import Markup
+
+            if isinstance(v, Markup):
+                return {"$": "markup", "v": str.__str__(v)}
+        except ImportError:  # pragma: no cover
+            pass
+        return str.__str__(v)
     if t is int:
         if abs(v) < 2**53:
             return v
